@@ -349,6 +349,55 @@ theorem timeAsChan_entry {d : DS α} {no nc nt : Nat} (h : d.WF no nc nt)
   obtain ⟨r, cv, v, _, _, _, rfl⟩ := cellAt_eq_some.1 hc
   exact this
 
+/-- helper: a labelled measurement exists only inside the shape -/
+private theorem cell_bounds {d : DS α} {no nc nt : Nat} (h : d.WF no nc nt) {i j t : Nat} {c : Cell α}
+    (hc : cellAt d i j t = some c) : i < no ∧ j < nc ∧ t < nt ∧ d.nTime = nt := by
+  obtain ⟨r, cv, v, hr, hcv, hv, rfl⟩ := cellAt_eq_some.1 hc
+  have hrm : r ∈ d.meas := List.mem_of_getElem? hr
+  have hi : i < no := by rw [← h.obsLen]; exact (List.getElem?_eq_some_iff.1 hr).1
+  have hj : j < nc := by rw [← h.chanLen r hrm]; exact (List.getElem?_eq_some_iff.1 hcv).1
+  have ht : t < nt := by
+    rw [← h.timeLen r hrm cv (List.mem_of_getElem? hcv)]; exact (List.getElem?_eq_some_iff.1 hv).1
+  exact ⟨hi, hj, ht, nTime_eq h (by omega) (by omega)⟩
+
+/-- **`time_as_channels()` flattens values and labels in the same index order** (round 5; depends on
+    the generated leaves `tacFlat`, `tacChanOf`, `tacTimeOf`).  The values are flattened by
+    `self.measurements.reshape(n_obs, -1)` — numpy's default `'C'` *index* order, which does not
+    depend on the memory layout of the array (C, Fortran, a strided or reversed view, the transposed
+    buffer `a[:, :, idx]` leaves behind) — the channel labels by `np.repeat(v, n_tps)` and the time
+    labels by `np.tile(v, n_chans)`.  Then
+    1. the column the reshape puts (channel `j`, time `t`) into is the column whose labels are those of
+       channel `j` and time `t` (`tacChanOf (tacFlat j t) = j`, `tacTimeOf (tacFlat j t) = t`);
+    2. that column of row `i` holds the measurement (i, j, t) with its observation, channel and time
+       labels;
+    3. conversely **every** column `q` of the result holds the measurement the source spells out for it
+       (`tacSource`: observation `i`, channel `q // n_tps`, time `q % n_tps`) with exactly its labels.
+    An `order=` other than `'C'` in the reshape (e.g. `'A'`, which follows the memory layout), a
+    reshape of another array, or other repeat / tile arguments make the leaves underivable. -/
+theorem timeAsChan_index_order {d : DS α} {no nc nt : Nat} (h : d.WF no nc nt)
+    (hdis : ∀ kc ∈ d.chan, kc.1 ∉ d.time.keys) :
+    (∀ i j t c, cellAt d i j t = some c →
+      Rsa.Gen.C11.tacChanOf (tacColumn d j t) d.nTime = j ∧
+      Rsa.Gen.C11.tacTimeOf (tacColumn d j t) d.nTime = t ∧
+      cellAt (timeAsChan d) i (tacColumn d j t) 0 = some ⟨c.v, c.o, c.c ++ c.t, [], c.d⟩) ∧
+    (∀ i q c, tacSource d i q = some c →
+      cellAt (timeAsChan d) i q 0 = some ⟨c.v, c.o, c.c ++ c.t, [], c.d⟩) := by
+  have hentry := (timeAsChan_entry h hdis).2.2
+  constructor
+  · intro i j t c hc
+    obtain ⟨_, _, ht, hNT⟩ := cell_bounds h hc
+    have hpos : 0 < nt := by omega
+    simp only [tacColumn, Rsa.Gen.C11.tacFlat, Rsa.Gen.C11.tacChanOf, Rsa.Gen.C11.tacTimeOf, hNT]
+    refine ⟨?_, ?_, hentry i j t c hc⟩
+    · rw [Nat.add_comm, Nat.add_mul_div_right _ _ hpos, Nat.div_eq_of_lt ht, Nat.zero_add]
+    · rw [Nat.add_comm, Nat.add_mul_mod_self_right, Nat.mod_eq_of_lt ht]
+  · intro i q c hc
+    unfold tacSource at hc
+    obtain ⟨_, _, _, hNT⟩ := cell_bounds h hc
+    simp only [Rsa.Gen.C11.tacChanOf, Rsa.Gen.C11.tacTimeOf, hNT] at hc
+    have := hentry i (q / nt) (q % nt) c hc
+    rwa [Nat.div_add_mod' q nt] at this
+
 /-! ### 9. DataFrame round trip -/
 
 /-- `Dataset.from_df(ds.to_df(key), channel_descriptor=key)`: measurements unchanged, channels
@@ -778,6 +827,24 @@ example : (timeAsObs "time" exT).map (·.meas)
 example : ∀ kc ∈ exT.obs, kc.1 ∉ exT.time.keys := by decide
 example : ∀ kc ∈ exT.chan, kc.1 ∉ exT.time.keys := by decide
 example : (timeAsChan exT).meas = [[[111], [112], [113]], [[211], [212], [213]]] := by decide
+/-- a single observation × 2 channels × 3 time points: the shape on which numpy's `a[:, :, idx]` leaves a
+    Fortran-contiguous buffer -/
+def exL : DS Rat :=
+  { temporal := true
+    meas := [[[1, 2, 3], [4, 5, 6]]]
+    desc := []
+    obs := [("c", [.num 0])]
+    chan := [("n", [.str "x", .str "y"])]
+    time := [("time", [.num 0, .num 1, .num 2])] }
+-- timeAsChan_index_order on it: (channel 1, time 0) goes to column 3, which carries the labels y / 0
+example : ∀ kc ∈ exL.chan, kc.1 ∉ exL.time.keys := by decide
+example : tacColumn exL 1 0 = 3 ∧
+    (tacSource exL 0 3).map (fun c => (c.v, c.c, c.t)) = some (4, [("n", .str "y")], [("time", .num 0)]) ∧
+    (cellAt (timeAsChan exL) 0 3 0).map (fun c => (c.v, c.c))
+      = some (4, [("n", .str "y"), ("time", .num 0)]) := by decide +kernel
+-- timeAsChan_index_order: column 2 of the result is (channel 0, time 2) of the source, and back
+example : tacColumn exT 0 2 = 2 ∧ (tacSource exT 1 2).map (·.v) = some 213 ∧
+    (cellAt (timeAsChan exT) 1 2 0).map (·.v) = some 213 := by decide +kernel
 -- df_roundtrip / average_by_is_group_mean
 example : (dfRoundTrip "n" ex).map (·.desc) = some [("sub", .num 1)] := by decide
 example : (averageBy "c" ex).map (·.1) = some [[21, 22], [31, 32]] := by decide +kernel
